@@ -39,7 +39,7 @@ class Graph:
           action = am.group(1) if am else lab
           proc = ''
           if am and am.group(2):
-            proc = am.group(2).strip().strip('"')
+            proc = am.group(2).split(',')[0].strip().strip('"')
           if action == 'Terminated':
             continue
           g.out[src].append((dst, action, proc))
